@@ -126,6 +126,8 @@ pub struct CaseResult {
     pub violations: Vec<Violation>,
     pub stats: Stats,
     pub abandoned: bool,
+    /// the thread's collector state was pristine after the case (the worker thread can be reused)
+    pub clean: bool,
     pub log: Vec<String>,
 }
 
@@ -198,6 +200,8 @@ pub struct Obj {
     pub first_trace_call: u64,
     pub unbuffer_ops: u32,
     pub manual_cleans: u32,
+    /// a Cc to this object was being dropped when a panic unwound the call: its count may stay too high
+    pub slack: bool,
 }
 
 pub struct HandleE {
@@ -289,6 +293,10 @@ pub struct World {
     pub drop_seen_in_call: u32,
     pub collect_depth: u32,
     pub clean_calls: Vec<usize>,
+    /// handle-table indices borrowed by an API call in progress: callbacks must not consume them
+    pub pinned: Vec<usize>,
+    /// targets of the edges of objects dropped in the current call (released by drop glue)
+    pub glue_targets: Vec<Oid>,
     pub cur_op_kind: u8,
     pub cur_owner: &'static str,
     pub bytes_unknown: bool,
@@ -415,6 +423,8 @@ impl World {
             drop_seen_in_call: 0,
             collect_depth: 0,
             clean_calls: Vec::new(),
+            pinned: Vec::new(),
+            glue_targets: Vec::new(),
             cur_op_kind: 0,
             cur_owner: "C04",
             bytes_unknown: false,
@@ -429,7 +439,11 @@ impl World {
         if self.logging {
             let depth = self.frames.len();
             let s = f();
-            self.log.push(format!("{:>3} {}{}", self.op, "  ".repeat(depth), s));
+            let line = format!("{:>3} {}{}", self.op, "  ".repeat(depth), s);
+            if self.strict {
+                println!("{}", line);
+            }
+            self.log.push(line);
         }
     }
 
@@ -479,6 +493,7 @@ impl World {
             violations: std::mem::take(&mut self.violations),
             stats: std::mem::take(&mut self.stats),
             abandoned,
+            clean: false,
             log: std::mem::take(&mut self.log),
         }
     }
@@ -1111,6 +1126,8 @@ impl Drop for Node {
                 }
             }
             let call = w.call;
+            let tg: Vec<Oid> = w.objs[oid as usize].slots.iter().flatten().map(|e| e.to).collect();
+            w.glue_targets.extend(tg);
             let o = &mut w.objs[oid as usize];
             saved = o.wslots;
             o.dropped = true;
@@ -1154,11 +1171,16 @@ impl Drop for Node {
 // ------------------------------------------------------------------------------------------
 // primitives: every pointer operation goes through these so that the shadow stays exact
 
-pub struct InflightGuard(pub Oid);
+pub struct InflightGuard(pub Oid, pub bool);
 impl Drop for InflightGuard {
     fn drop(&mut self) {
         let oid = self.0;
+        let completed = self.1;
         let _ = try_w(|w| {
+            if !completed {
+                // the drop of this Cc was unwound: the count of its target may stay too high
+                w.objs[oid as usize].slack = true;
+            }
             if let Some(n) = w.inflight.get_mut(&oid) {
                 *n -= 1;
                 if *n == 0 {
@@ -1185,9 +1207,12 @@ pub fn prim_drop(cc: Cc<Node>, oid: Oid) {
         w.objs[oid as usize].was_buffered_or_collected |= true;
         w.note(|| format!("drop Cc->obj{}", oid));
     });
-    let _g = InflightGuard(oid);
-    let _b = Bracket::open();
-    drop(cc);
+    let mut g = InflightGuard(oid, false);
+    {
+        let _b = Bracket::open();
+        drop(cc);
+    }
+    g.1 = true;
 }
 
 pub fn new_obj(w: &mut World, spec: Spec) -> Oid {
@@ -1233,6 +1258,7 @@ pub fn new_obj(w: &mut World, spec: Spec) -> Oid {
         first_trace_call: 0,
         unbuffer_ops: 0,
         manual_cleans: 0,
+        slack: false,
     });
     w.created_in_call += 1;
     oid
